@@ -273,12 +273,14 @@ def job_generator(tier, seed):
         r = ex.call(stL.fork(), '@k_rnaddr', [ctx['interp'], k, z3.ZeroExt(16, bv(LR['r[%d]' % k], 16))])
         return bv(r[1], 16)
     EFF = [eff(k) for k in range(8)]
-    win = lambda k, a: z3.And(z3.UGE(a, (c01b.XLO if k < 4 else c01b.YLO) + 10), z3.ULE(a, (c01b.XLO if k < 4 else c01b.YLO) + c01b.WSZ - 10))
+    # inside the window of the register's bank; how far from the edges is the generator's business (C01 clause B decides
+    # whether the accesses of each instruction stay inside)
+    win = lambda k, a: z3.And(z3.UGE(a, (c01b.XLO if k < 4 else c01b.YLO)), z3.ULT(a, (c01b.XLO if k < 4 else c01b.YLO) + c01b.WSZ))
     vars_ = {'state.' + f: t for f, t in ld['SV'].items()}
     vars_.update({'cfg.' + f: t for f, t in g['cfgv'].items()})
     for i in range(8):
         ck.prove('GeneratorPins[r%d]' % i, A0 + [g['cfgv']['r[%d]' % i] == 1], win(i, EFF[i]), vars=vars_,
-                 sample='Config.r[%d] == Memory: the address the interpreter forms from r%d (bit-reversed when br && !m) lies in the %s window with a margin of 10' % (i, i, 'X' if i < 4 else 'Y') if i in (0, 7) else None)
+                 sample='Config.r[%d] == Memory: the address the interpreter forms from r%d (bit-reversed when br && !m) lies in the %s window' % (i, i, 'X' if i < 4 else 'Y') if i in (0, 7) else None)
     for i in range(4):
         unit = bv(LR['arrn[%d]' % i], 16)
         goal = z3.And(*[z3.Implies(unit == k, win(k, EFF[k])) for k in range(8)] + [z3.ULT(unit, 8)])
@@ -289,7 +291,7 @@ def job_generator(tier, seed):
         goal = z3.And(*[z3.Implies(ui == k, win(k, EFF[k])) for k in range(4)] + [z3.Implies(uj == k, win(k + 4, EFF[k + 4])) for k in range(4)] + [z3.ULT(ui, 4), z3.ULT(uj, 4)])
         ck.prove('GeneratorPins[ArpRn slot %d]' % i, A0 + [g['cfgv']['arp[%d]' % i] == 1], goal, vars=vars_,
                  sample='Config.arp[%d] == Memory: both registers Set<arp%d> selects (arprni -> r0..r3, arprnj -> r4..r7) are the ones the generator pinned' % (i, i))
-    ck.prove('GeneratorPins[lock_r7]', AL + [g['cfgv']['lock_r7'] == 1], z3.And(z3.UGE(bv(LR['r[7]'], 16), c01b.YLO + 10), z3.ULE(bv(LR['r[7]'], 16), c01b.YLO + c01b.WSZ - 10)), vars=vars_)
+    ck.prove('GeneratorPins[lock_r7]', AL + [g['cfgv']['lock_r7'] == 1], z3.And(z3.UGE(bv(LR['r[7]'], 16), c01b.YLO), z3.ULT(bv(LR['r[7]'], 16), c01b.YLO + c01b.WSZ)), vars=vars_)
     ck.prove('GeneratorPins[lock_page]', A0 + [g['cfgv']['lock_page'] == 1], bv(LR['page'], 16) == (c01b.XLO >> 8), vars=vars_,
              sample='Config.lock_page: the page the loader installs from mod1 is the page of the X window')
     ck.nstates += 26
